@@ -258,6 +258,16 @@ def check_206(rec, case, st, hd, data, res, exp, h):
     return key is None
 
 
+def text_resource(L):
+    """A text whose UTF-8 encoding is exactly L bytes long and mixes 1-, 2-, 3- and 4-byte characters."""
+    out, i = "", 0
+    while len(out.encode()) < L:
+        ch = "é☃a😀b"[i % 5]
+        i += 1
+        out += ch if len((out + ch).encode()) <= L else "x"
+    return out
+
+
 def check_range(W, rec, L, h, supply, bs, method, ifrange=None):
     Response, create_environ, FileWrapper = W["Response"], W["create_environ"], W["FileWrapper"]
     from werkzeug.exceptions import RequestedRangeNotSatisfiable
@@ -276,6 +286,11 @@ def check_range(W, rec, L, h, supply, bs, method, ifrange=None):
             body += [res[i:i + bs], b""]
     elif supply == "list":
         body = [res[i:i + bs] for i in range(0, L, bs)]
+    elif supply == "liststr":
+        # the body given as text items; Range / Content-Range positions count bytes of the encoded representation
+        txt = text_resource(L)
+        res = txt.encode()
+        body = [txt[i:i + bs] for i in range(0, len(txt), bs)]
     elif supply == "gen":
         body = (res[i:i + bs] for i in range(0, L, bs))
     elif supply == "fw":
@@ -437,6 +452,11 @@ def run(shard, rec, rng):
                             continue
                         with rec.guard({"L": L, "Range": h, "supply": supply}, "C11"):
                             check_range(W, rec, L, h, supply, bs, method)
+            for bs in (1, 2):
+                n += 1
+                if n % of == idx:
+                    with rec.guard({"L": L, "Range": h, "supply": "liststr"}, "C11"):
+                        check_range(W, rec, L, h, "liststr", bs, "GET")
             for ifr in IFR[1:]:
                 n += 1
                 if n % of == idx:
